@@ -13,7 +13,7 @@ def replay(ctx, rep):
     from harness import krun, common
     case = rep['case']
     if case.get('scenario'):
-        return common.scenario_replay(ctx, rep, {'proxy': proxy_scenarios})
+        return common.scenario_replay(ctx, rep, {'proxy': proxy_scenarios, 'evolving': evolving_scenarios})
     r = krun.Run(case, ['C07']).run()
     for s in r.steps:
         print(s['op'], '->', s['outcome'])
@@ -206,3 +206,178 @@ _kernel_run = run
 def run(ctx, out):   # noqa: F811
     _kernel_run(ctx, out)
     proxy_scenarios(ctx, out)
+
+
+# ---------------------------------------------------------------------------
+# a dynamic metamodel that grows after its classes have been used: references added to SUPER classes (plain,
+# bidirectional, containment) after instances of the subclasses were deleted / inspected once
+# (oracle on the implementation only; the kernel model has a fixed metamodel per case)
+
+def evolving_scenarios(ctx, out):
+    from harness import common
+    common.use_repo()
+    from pyecore import ecore as E
+    rng = common.rng_for(ctx.seed, 'C07:evolving')
+    n = 40 if ctx.tier != 'thorough' else 800
+    cnt = 0
+
+    for it in range(n):
+        Base, Mid, Leaf, Side = E.EClass('Base'), E.EClass('Mid'), E.EClass('Leaf'), E.EClass('Side')
+        Mid.eSuperTypes.append(Base)
+        Leaf.eSuperTypes.append(Mid)
+        for c in (Base, Mid, Leaf, Side):
+            c.eStructuralFeatures.append(E.EAttribute('name', E.EString))
+        Base.eStructuralFeatures.append(E.EReference('link', Base, upper=-1))
+        Side.eStructuralFeatures.append(E.EReference('target', Base))
+        Base.eStructuralFeatures.append(E.EReference('kids', Base, upper=-1, containment=True))
+        objs = []
+
+        def new(cls, nm):
+            o = cls(name=nm)
+            objs.append(o)
+            return o
+        hist = []
+
+        def populate(k):
+            live = [o for o in objs if o not in dead]
+            for _ in range(k):
+                o = rng.choice(live)
+                feats = [f for f in o.eClass.eAllStructuralFeatures() if isinstance(f, E.EReference)]
+                f = rng.choice(feats)
+                cands = [x for x in live if f.eType.python_class and isinstance(x, f.eType.python_class)]
+                if not cands:
+                    continue
+                v = rng.choice(cands)
+                if f.containment:
+                    # keep the containment forest: no cycles, v not an ancestor of o
+                    a, cyc = o, False
+                    while a is not None:
+                        if a is v:
+                            cyc = True
+                        a = a.eContainer()
+                    if cyc:
+                        continue
+                try:
+                    if f.many:
+                        o.eGet(f.name).append(v)
+                    else:
+                        o.eSet(f.name, v)
+                    hist.append(['link', o.name, f.name, v.name])
+                except Exception as e:  # noqa
+                    hist.append(['link', o.name, f.name, v.name, type(e).__name__])
+
+        def snap():
+            s = {}
+            for o in objs:
+                d = {}
+                for f in o.eClass.eAllStructuralFeatures():
+                    if not isinstance(f, E.EReference):
+                        continue
+                    v = o.eGet(f.name)
+                    d[f.name] = [x.name for x in v] if f.many else (v.name if v is not None else None)
+                c = o.eContainer()
+                s[o.name] = (d, c.name if c is not None else None)
+            return s
+
+        def subtree(o):
+            r = [o]
+            for f in o.eClass.eAllStructuralFeatures():
+                if isinstance(f, E.EReference) and f.containment:
+                    v = o.eGet(f.name)
+                    for x in (list(v) if f.many else ([v] if v is not None else [])):
+                        r += subtree(x)
+            return r
+
+        dead = set()
+        for i in range(2):
+            new(Base, f'b{i}'); new(Mid, f'm{i}'); new(Leaf, f'l{i}'); new(Side, f's{i}')
+        new(Leaf, 'l2'); new(Mid, 'm2')
+        populate(rng.randrange(3, 9))
+        # use the classes once: inspections and possibly one delete
+        for o in objs:
+            list(o.eContents)
+        if rng.random() < 0.7:
+            v0 = rng.choice([o for o in objs if isinstance(o, Base.python_class)])
+            for x in subtree(v0):
+                dead.add(x)
+            v0.delete()
+            hist.append(['delete', v0.name, True])
+        failed = False
+        for phase in range(rng.randrange(1, 4)):
+            # grow a SUPER class
+            host = rng.choice([Base, Mid])
+            shape = rng.choice(['plain', 'bidir', 'containment', 'bidir-single'])
+            nm = f'x{phase}'
+            if shape == 'plain':
+                host.eStructuralFeatures.append(E.EReference(nm, Side, upper=rng.choice([1, -1])))
+            elif shape == 'containment':
+                host.eStructuralFeatures.append(E.EReference(nm, rng.choice([Side, Base]), upper=rng.choice([1, -1]),
+                                                             containment=True))
+            else:
+                r1 = E.EReference(nm, Side, upper=-1 if shape == 'bidir' else 1)
+                r2 = E.EReference(nm + 'Of', host, upper=rng.choice([1, -1]))
+                host.eStructuralFeatures.append(r1)
+                Side.eStructuralFeatures.append(r2)
+                r1.eOpposite = r2
+            hist.append(['grow', host.name, shape, nm])
+            populate(rng.randrange(6, 16))
+            live = [o for o in objs if o not in dead]
+            if len(live) < 3:
+                break
+            victim = rng.choice(live)
+            recursive = rng.random() < 0.7
+            before = snap()
+            D = set(subtree(victim)) if recursive else {victim}
+            Dn = {x.name for x in D}
+            try:
+                victim.delete(recursive=recursive)
+            except Exception as e:  # noqa
+                out.fail({'property': 'C07', 'clause': 'delete-raised', 'scenario': 'evolving', 'shape': shape},
+                         f'{victim.name}.delete(recursive={recursive}) raised {type(e).__name__}: {e}',
+                         {'scenario': 'evolving', 'seed': ctx.seed, 'tier': ctx.tier, 'history': hist + [['delete', victim.name, recursive]]})
+                failed = True
+                break
+            hist.append(['delete', victim.name, recursive])
+            dead |= D
+            cnt += 1
+            after = snap()
+            bad = []
+            for o in objs:
+                (bd, bc), (ad, ac) = before[o.name], after[o.name]
+                if o in D:
+                    if ac is not None:
+                        bad.append(('deleted-keeps-container', f'{o.name} still has the container {ac}'))
+                    for f, v in ad.items():
+                        if v not in (None, []):
+                            bad.append(('deleted-holds-references', f'{o.name}.{f} still holds {v}'))
+                else:
+                    for f, v in ad.items():
+                        old = bd.get(f)
+                        exp = [x for x in old if x not in Dn] if isinstance(old, list) else (None if old in Dn else old)
+                        hold = [x for x in (v if isinstance(v, list) else [v]) if x in Dn]
+                        if hold:
+                            bad.append(('dangling', f'{o.name}.{f} still holds the deleted {hold}'))
+                        elif v != exp:
+                            bad.append(('survivor-changed', f'{o.name}.{f} was {old}, is {v}'))
+                    if ac in Dn and not (not recursive and bc == victim.name):
+                        bad.append(('dangling', f'{o.name} is still contained in the deleted {ac}'))
+                    elif recursive and ac != bc:
+                        bad.append(('survivor-changed', f'container of {o.name} was {bc}, is {ac}'))
+            if bad:
+                out.fail({'property': 'C07', 'clause': bad[0][0], 'scenario': 'evolving', 'shape': shape,
+                          'recursive': recursive},
+                         f'after {victim.name}.delete(recursive={recursive}) (reference {nm} added to {host.name} after first use): {bad[0][1]}',
+                         {'scenario': 'evolving', 'seed': ctx.seed, 'tier': ctx.tier, 'history': hist})
+                failed = True
+                break
+        if failed:
+            continue
+    out.coverage['evolving_metamodel_delete_cases'] = cnt
+
+
+_run_p = run
+
+
+def run(ctx, out):   # noqa: F811
+    _run_p(ctx, out)
+    evolving_scenarios(ctx, out)
